@@ -166,13 +166,20 @@ func cmdWorker(args []string) {
 
 	var cur int64 = -1
 	var curStart int64
-	go func() { // watchdog: wall clock is read here only, never inside a run
+	var curTape atomic.Value // *tape.Tape of the run in progress
+	go func() {              // watchdog: wall clock is read here only, never inside a run
 		for {
 			time.Sleep(250 * time.Millisecond)
 			c := atomic.LoadInt64(&cur)
 			s := atomic.LoadInt64(&curStart)
 			if c >= 0 && time.Since(time.Unix(0, s)) > hooks.PerRunTimeout {
-				fmt.Fprintf(os.Stdout, "\n{\"t\":\"hang\",\"i\":%d}\n", c)
+				// the choices the stuck run has made so far are its replay tape
+				var vals []uint64
+				if t, ok := curTape.Load().(*tape.Tape); ok && t != nil {
+					vals = append(vals, t.Vals...)
+				}
+				b, _ := json.Marshal(vals)
+				fmt.Fprintf(os.Stdout, "\n{\"t\":\"hang\",\"i\":%d,\"tape\":%s}\n", c, b)
 				os.Exit(3)
 			}
 		}
@@ -184,6 +191,7 @@ func cmdWorker(args []string) {
 			st := core.NewStats()
 			st.SampleWant = 0
 			t := tape.New(RunSeed(*seed, *propID, i), p.Prefix(*tier, i))
+			curTape.Store(t)
 			atomic.StoreInt64(&curStart, time.Now().UnixNano())
 			atomic.StoreInt64(&cur, i)
 			v, herr := executeRun(p, t, st)
@@ -221,6 +229,7 @@ func cmdWorker(args []string) {
 			out.Flush()
 		}
 		t := tape.New(RunSeed(*seed, *propID, i), p.Prefix(*tier, i))
+		curTape.Store(t)
 		atomic.StoreInt64(&curStart, time.Now().UnixNano())
 		atomic.StoreInt64(&cur, i)
 		v, herr := executeRun(p, t, st)
@@ -289,6 +298,7 @@ type foundViolation struct {
 }
 
 type workerResult struct {
+	hangTape []uint64
 	stats    *core.Stats
 	vcount   int64
 	viol     []wireViolation
@@ -336,9 +346,10 @@ func runWorker(args []string, env []string, timeout time.Duration) workerResult 
 				continue
 			}
 			var head struct {
-				T   string `json:"t"`
-				I   int64  `json:"i"`
-				Msg string `json:"msg"`
+				T    string   `json:"t"`
+				I    int64    `json:"i"`
+				Msg  string   `json:"msg"`
+				Tape []uint64 `json:"tape"`
 			}
 			if json.Unmarshal(line, &head) != nil {
 				continue
@@ -355,6 +366,7 @@ func runWorker(args []string, env []string, timeout time.Duration) workerResult 
 				res.stats, res.vcount = s.Stats, s.VCount
 			case "hang":
 				res.hangAt = head.I
+				res.hangTape = head.Tape
 			case "cur":
 				res.lastCur = head.I
 			case "harness":
@@ -519,6 +531,7 @@ func cmdRun(args []string) {
 	var found []wireViolation
 	var vcount int64
 	hangIsV := hooks.HangIsViolation[*propID]
+	hangConfirmed := false
 	for k := int64(0); k < W; k++ {
 		r := &results[k]
 		from := int64(0)
@@ -577,14 +590,19 @@ func cmdRun(args []string) {
 			// a run exceeded the watchdog: believed only when it repeats with 3x the budget
 			idx := r.hangAt
 			found = append(found, r.viol...)
-			cr := runWorker([]string{"worker", "-prop", *propID, "-tier", *tier, "-seed", fmt.Sprint(*seed), "-digest", fmt.Sprint(idx)}, []string{"VERIF_WATCHDOG_X=3"}, 0)
-			if cr.hangAt < 0 && !cr.crashed {
+			confirmed := hangConfirmed // once a hang has been confirmed with the 3x budget, later ones in this batch are believed at 1x
+			if !confirmed {
+				cr := runWorker([]string{"worker", "-prop", *propID, "-tier", *tier, "-seed", fmt.Sprint(*seed), "-digest", fmt.Sprint(idx)}, []string{"VERIF_WATCHDOG_X=3"}, 0)
+				confirmed = cr.hangAt >= 0 || cr.crashed
+			}
+			if !confirmed {
 				fmt.Printf("note: run %d exceeded the watchdog once but finished on retry; not counted\n", idx)
 			} else {
 				if !hangIsV {
 					fatal2("run %d of %s does not return (watchdog %v, then 3x); this property's check cannot judge it", idx, *propID, hooks.PerRunTimeout)
 				}
-				found = append(found, wireViolation{T: "v", I: idx, Class: "hang", Sig: "hang",
+				hangConfirmed = true
+				found = append(found, wireViolation{T: "v", I: idx, Tape: r.hangTape, Class: "hang", Sig: "hang",
 					Detail: fmt.Sprintf("run %d did not return within %v and again not within three times that", idx, hooks.PerRunTimeout)})
 				vcount++
 			}
@@ -655,7 +673,17 @@ func cmdRun(args []string) {
 		os.MkdirAll(dir, 0o755)
 		path := filepath.Join(dir, fmt.Sprintf("%d-%s-%016x.json", *seed, sanitize(g.Class), tape.HashString(sig)))
 		rf.ReplayCmd = fmt.Sprintf("%s --replay %s", *checkCmd, path)
-		if g.Tape != nil {
+		if g.Tape != nil && g.Class == "hang" {
+			// every execution of this tape runs into the watchdog: no minimisation,
+			// one confirming replay in a fresh process
+			writeJSON(path, rf)
+			rr := runWorker([]string{"replay", "-file", path}, nil, 0)
+			rf.Reproduced = "0/1"
+			if rr.exitCode == 1 {
+				rf.Reproduced = "1/1"
+			}
+			writeJSON(path, rf)
+		} else if g.Tape != nil {
 			writeJSON(path, rf)
 			sargs := []string{"shrink", "-file", path, "-out", path + ".min"}
 			if m := hooks.ShrinkMax[*propID]; m > 0 {
@@ -696,7 +724,12 @@ func cmdRun(args []string) {
 		exit = 1
 	}
 	if recheckBad > 0 {
-		fatal2("determinism re-check: %d of %d re-executed runs gave a different digest", recheckBad, recheckN)
+		if exit == 0 {
+			fatal2("determinism re-check: %d of %d re-executed runs gave a different digest", recheckBad, recheckN)
+		}
+		// a tree that violates the property may also behave differently from
+		// process to process (pooled buffers, map order); the violation stands
+		fmt.Printf("note: determinism re-check: %d of %d re-executed runs gave a different digest (reported violations stand)\n", recheckBad, recheckN)
 	}
 
 	wall := time.Since(start).Seconds()
